@@ -196,6 +196,57 @@ def job_busy(j):
     return n, res
 
 
+def job_overlapping_polls(j):
+    """Two polls of one object overlap: the second is started when the inverter has seen k requests of the first, for every
+    k - on a fresh object (the capability fallbacks happen while both are under way) and on a settled one.  Both polls
+    decode from fetched registers only."""
+    import asyncio
+    cfg, = j
+    out = {}
+    n = 0
+    for settled in (False, True):
+        base = make_rig(cfg, 'udp')
+        base.call(base.inv.read_device_info)
+        if settled:
+            base.call(base.inv.read_runtime_data)
+        l0 = len(base.dev.log)
+        base.call(base.inv.read_runtime_data)
+        nreq = len(base.dev.log) - l0
+        for k in range(nreq + 1):
+            r = make_rig(cfg, 'udp')
+            inv, dev = r.inv, r.dev
+            r.call(inv.read_device_info)
+            if settled:
+                r.call(inv.read_runtime_data)
+            l1 = len(dev.log)
+
+            async def both():
+                async def second():
+                    guard = 0
+                    while len(dev.log) - l1 < k and guard < 400:
+                        guard += 1
+                        await asyncio.sleep(0.0004)
+                    return await inv.read_runtime_data()
+                return await asyncio.gather(inv.read_runtime_data(), second(), return_exceptions=True)
+            with Probe() as p:
+                r.call(both)
+                r.call(inv.read_runtime_data)
+            n += 1
+            for sid, pos, size, got, win in p.short:
+                if ('C14', f'reads-inside-answer/{cfg["family"]}/{sid}') in _known():
+                    continue
+                key = f'reads-inside-answer/{cfg["family"]}/{sid}/overlapping-polls'
+                out.setdefault(key, []).append(dict(key=key, clause='reads-inside-answer', replay=dict(cfg=cfg, transport='udp', overlap=[settled, k]),
+                                                    detail=dict(cause=f'{sid}: read {size} bytes at payload position {pos}, got {got} (window {win[0]}+{win[1]}); '
+                                                                      f'a second poll was started after request #{k} of the first'
+                                                                      f'{" (object polled before)" if settled else " (first polls of the object)"}')))
+    res = []
+    for key, lst in out.items():
+        lst[0]['n'] = len(lst)
+        res.append(lst[0])
+    return n, res
+
+
 def job_transient(j):
     from .c15 import run_transient
     cfg, = j
@@ -230,6 +281,12 @@ def run(tier, seed, rep):
     for n, res in pmap(job_busy, [(c,) for c in busy_cfgs]):
         nbusy += n
         rep.add_many(res)
+    novl = 0
+    ovl_cfgs = busy_cfgs + [dict(family='ET', tag='ETU', power=15000, refused=rf, battery_mode=2) for rf in (('battery',), ('mppt',), ('battery2', 'meter_ext2'))] + \
+        [dict(family='DT', tag='DTU', power=5000, refused=('meter',), battery_mode=0)]
+    for n, res in pmap(job_overlapping_polls, [(c,) for c in ovl_cfgs]):
+        novl += n
+        rep.add_many(res)
     dyn_cfgs = [dict(family='ET', tag=t, power=p, refused=(), battery_mode=2)
                 for t, p in (('ETU', 3000), ('ETU', 25000), ('ETT', 10000), ('EHU', 5000))]
     ndyn = 0
@@ -253,7 +310,7 @@ def run(tier, seed, rep):
         states |= sts
         rep.add_many(res)
     cov = dict(api_session_histories=_api['histories'], api_session_states=_api['states'], states=len(states), transitions=reads, executions=total, traces_validated_against_impl=total,
-               configurations=total, dynamic_histories=ndyn, polls_with_one_request_rejected=nbusy, instrumented_reads=reads, exhaustive=True,
+               configurations=total, dynamic_histories=ndyn, polls_with_one_request_rejected=nbusy, overlapping_poll_pairs=novl, instrumented_reads=reads, exhaustive=True,
                bound='every model configuration of C15 (tags x rated power x refused subsets x battery) x every sensor of '
                      'every block; each ProtocolResponse.read is observed (position, requested, returned) and cross-checked '
                      'with the static sensor-span-versus-request-window computation',
@@ -273,6 +330,9 @@ def replay(r):
         return out
     cfg = r['cfg']
     cfg['refused'] = tuple(cfg['refused'])
+    if 'overlap' in r:
+        n, res = job_overlapping_polls((cfg,))
+        return dict(pairs=n, violations=[('reads-inside-answer', v['key']) for v in res])
     if 'busy' in r:
         n, res = job_busy((cfg,))
         return dict(polls=n, violations=[('reads-inside-answer', v['key']) for v in res])
